@@ -53,6 +53,6 @@ def writer_outputs(rng, n=6):
     for i in range(n):
         # cues spaced >= 2 s apart: the SCC writer needs transmission time between cues (C17's precondition);
         # an SCC stream with overlapping transmissions is not a well-formed document
-        a = abstract_set(rng, nlang=1, start=4000000, max_lines=2, gap_choices=(2000000, 3000000, 5000000))
+        a = abstract_set(rng, nlang=1 if i % 3 else 2, start=4000000, max_lines=2, gap_choices=(2000000, 3000000, 5000000))
         for name, W in writers().items():
             yield name, W().write(build_set(a))
